@@ -12,6 +12,11 @@ class Slots(object):
     __slots__ = ('p', 'q')
 
 
+class SlotsSub(Slots):
+    """subclass without __slots__ of a slotted class: the instance has slots *and* a __dict__; with an empty __dict__
+    copyreg's state is the pair (None, {slot: value})"""
+
+
 class SlotsAndDict(object):
     __slots__ = ('p', '__dict__')
 
